@@ -1291,7 +1291,7 @@ def run_case_c14(seed, replay=None, tier='quick'):
                 else:
                     plan.append({'at': ['fsop_rel', ch2.rng_int('plan', 1, 14)], 'down': ch2.rng_int('plan', 0, 2)})
             plans.append(plan)
-    n_crash = n_restart = n_in_save = 0
+    n_crash = n_restart = 0
     delivered_after_restart = False
     for plan in plans:
         w = one(plan)
@@ -1300,7 +1300,6 @@ def run_case_c14(seed, replay=None, tier='quick'):
         if w.n_restarts and any(inc > 0 for (_, _, _, inc) in w.readers['r0'].ever):
             delivered_after_restart = True
     probes['crash_points'] = len(plans)
-    probes['crash_plans_with_crash'] = sum(1 for _ in plans)
     knobs_out = dict(knobs)
     if viol_plans:
         knobs_out['viol_plans'] = viol_plans[:3]
